@@ -6,7 +6,7 @@
 From Coq Require Import ZArith List Bool Permutation.
 From Batchie Require Import Lib.Sexp Model.Encode Model.Screen Model.Retro Model.Pairwise Model.RetroHoldout
   Model.RetroInit Proofs.C11Lib Proofs.C11Gen Proofs.C11Smooth Proofs.C11Select Proofs.C11Holdout Proofs.C11Init
-  Generated.SrcRetro Proofs.C11Source Proofs.C13SampleSeg Proofs.C13SparseTerm Generated.SrcRetroGen Proofs.C13Source.
+  Generated.SrcRetro Proofs.C11Source Proofs.C13SampleSeg Proofs.C13SparseTerm Generated.SrcRetroGen Proofs.C13Source Proofs.C13SourcePairwise.
 Import ListNotations.
 
 (* ---- the models are what the source says NOW ----
@@ -158,6 +158,15 @@ Theorem C11_model_is_source_filter_dataset_to_treatments_that_appear_in_at_least
   src_combo_filter ctrl arity rows = combo_filter ctrl arity rows.
 Proof. exact src_combo_filter_is_model. Qed.
 Print Assumptions C11_model_is_source_filter_dataset_to_treatments_that_appear_in_at_least_one_combo.
+
+Theorem C11_model_is_source_pairwise_generate_plates : forall ctrl subset anchor rows ds,
+  (argsort_ok anchor (length (unique_ids ctrl (filter (is_combo ctrl) rows))) ds ->
+   src_pairwise_generate_plates ctrl subset anchor rows ds = pairwise ctrl subset anchor rows ds) /\
+  (argsort_ok anchor (length (unique_ids ctrl (filter (is_combo ctrl) (unobserved rows)))) ds ->
+   src_generate_plates (src_pairwise_generate_plates ctrl subset anchor) rows ds
+   = generate_plates (GPairwise ctrl subset anchor) rows ds).
+Proof. exact link_pairwise_generate_plates. Qed.
+Print Assumptions C11_model_is_source_pairwise_generate_plates.
 
 (* every shipped generator (PlatePermutation, SampleSegregating in both variants, Pairwise), every
    oracle answer: the output is new ++ (observed input rows, unchanged, still observed), the new rows
